@@ -166,6 +166,12 @@ package signaling_rpc_server
 //@   ensures old(sess in s.sessions) ==> old(s.sessions[sess]).seqno == old(s.sessions[sess].seqno) && old(s.sessions[sess]).peerA == old(s.sessions[sess].peerA) && old(s.sessions[sess]).peerB == old(s.sessions[sess].peerB)
 //@   ensures held(s.mtx)
 
+// The session key of two peers: the lower-sorted ID text first; the flag says whether the first
+// argument is that one.
+//@ func newSessionKey
+//@   ensures ret1 ==> ret0.peerA == p1 && ret0.peerB == p2
+//@   ensures !ret1 ==> ret0.peerA == p2 && ret0.peerB == p1
+
 // ---- Session (C20, C22, C25) ----
 // Registration (first critical section): the call's fresh, empty tracker becomes the attached end
 // of the session registered under the key of (authenticated source, requested destination), on the
@@ -181,6 +187,9 @@ package signaling_rpc_server
 // C21: a transmission record is only ever set by the write loop, on its own tracker, to the sequence
 // number of the pending message it takes for forwarding in the same section
 //@   cs Server.mtx ensures forall t *sessionPeerTracker trigger t.recvSent :: old(isobj(t)) && t.recvSent != old(t.recvSent) && t.recvSent != nil ==> t == ourPeerTkr && old(t.recv) != nil && deref(t.recvSent) == old(t.recv.Seqno)
+// the key is the one of (authenticated source, requested destination), and the side flag says which end the source is
+//@   assert at call newSessionKey: arg0 == srcPeerIDStr && arg1 == dstPeerIDStr
+//@   cs Server.mtx#1 ensures (localIsPeerA ==> sessKey.peerA == srcPeerIDStr && sessKey.peerB == dstPeerIDStr) && (!localIsPeerA ==> sessKey.peerA == dstPeerIDStr && sessKey.peerB == srcPeerIDStr)
 //@   cs Server.mtx#1 ensures (sessKey in self.sessions) && self.sessions[sessKey] == sess && (localIsPeerA ==> sess.peerA == ourPeerTkr) && (!localIsPeerA ==> sess.peerB == ourPeerTkr)
 //@   cs Server.mtx#1 ensures ourPeerTkr.recv == nil && ourPeerTkr.recvSent == nil && ourPeerTkr.recvClear == nil && ourPeerTkr.outAcked == nil
 //@   cs Server.mtx#1 ensures (dstPeerIDStr in self.peers) && self.peers[dstPeerIDStr] == dstPeer && (srcPeerIDStr in dstPeer.wantPeers)
